@@ -32,7 +32,10 @@ RULE = ("cases = (method, plan, dialogue cut, fault schedule, pre-existing forei
         "spawned) --, with foreign chains/"
         "rules (some carrying non-ASCII UTF-8 comments, which every `-nL` listing read by ipt_chain_exists then shows) "
         "and a second instance on another port present before or arriving during the session, also combined with "
-        "tear-down faults; plus signal "
+        "tear-down faults; the helper's log streams (sys.stderr / sys.stdout behind the real helpers.log) failing "
+        "with EIO / EPIPE / closed-file at verbosity 0/1/2 during the tear-down or all along with a set-up fault to "
+        "undo; pf (OpenBSD flavour; Darwin in thorough) sessions incl. a long one with many QUERY_PF_NAT lines under a "
+        "descriptor budget at the OS boundary (os.open / Popen answer EMFILE when it is used up); plus signal "
         "sequences (SIGHUP/SIGPIPE/SIGINT/SIGTERM, repeated) delivered to a real helper process after STARTED "
         "before the control channel closes; a case is "
         "non-trivial when at least one firewall command was issued; distinct = distinct (method, dialogue, "
@@ -67,7 +70,11 @@ MANIFEST = dict(
                 "faults (other family still restored, foreign part untouched, later session starts); commands that cannot "
                 "be spawned (OSError instead of an exit status) - every index of set-up and tear-down is injected; foreign "
                 "commands interleaved with the session (second instance / foreign rules arriving during it); the hosts "
-                "file. pf: modelled in Lean (unvalidated, from the manual pages), not driven by the harness, no theorem. "
+                "file; failing log streams (EIO/EPIPE/closed file at verbosity 0-2, real helpers.log) in tear-down and "
+                "set-up-undo histories. pf: modelled in Lean and in PyEnv from the manual pages (unvalidated), no "
+                "theorem and no code-model diff; driven on the real code with a descriptor budget (a long session of "
+                "QUERY_PF_NAT lines must not exhaust it; pf must be back in its pre-session state), environments "
+                "cross-checked; the anchor references add_anchors() leaves in the main ruleset are a known finding. "
                 "Signals: not a theorem; decided on a real "
                 "helper process on every run (real setup_daemon handlers, file-backed packet filter): SIGHUP/SIGPIPE ignored, "
                 "SIGINT/SIGTERM relayed to the client every time they arrive, rules restored once the control channel closes. "
@@ -508,9 +515,11 @@ class FakeSub:
         self.router = router
 
     def call(self, argv, **kw):
+        self.router.need_fds(1)
         return self.router.run(argv)[0]
 
     def check_output(self, argv, **kw):
+        self.router.need_fds(2)
         rc, out, _ = self.router.run(argv)
         if rc:
             raise self.CalledProcessError(rc, argv)
@@ -518,6 +527,7 @@ class FakeSub:
 
     def Popen(self, argv, stdin=None, stdout=None, stderr=None, env=None):
         router = self.router
+        router.need_fds(3)             # the pipes of stdin/stdout/stderr
         if router.spawn_pending():
             router.run(argv, b'')      # raises OSError, as subprocess.Popen() does when fork/exec fails
 
@@ -534,6 +544,48 @@ class FakeSub:
                     self.communicate()
                 return self.returncode
         return P()
+
+
+class FailingStream:
+    """The helper's sys.stderr / sys.stdout when the terminal or pipe behind it has gone: every write
+    and flush fails (EIO: hung-up tty, EPIPE: reader gone, closed: ValueError of a closed file object),
+    always or from the moment the tear-down starts."""
+
+    def __init__(self, box, err, when):
+        self.box, self.err, self.when = box, err, when
+        self.failed = 0
+
+    def _check(self):
+        if self.when == 'always' or self.box.teardown_started:
+            self.failed += 1
+            if self.err == 'closed':
+                raise ValueError('I/O operation on closed file')
+            import errno as _errno
+            if self.err == 'EPIPE':
+                raise BrokenPipeError(_errno.EPIPE, 'Broken pipe')
+            raise OSError(_errno.EIO, 'Input/output error')
+
+    def write(self, data):
+        self._check()
+        return len(data)
+
+    def flush(self):
+        self._check()
+
+
+class OsShim:
+    """`os` as methods/pf.py sees it: opening /dev/pf takes a descriptor from the budget."""
+
+    def __init__(self, box):
+        self._box = box
+
+    def __getattr__(self, name):
+        return getattr(os, name)
+
+    def open(self, path, flags, *a):
+        if path == '/dev/pf':
+            return self._box.take_fd()
+        return os.open(path, flags, *a)
 
 
 class ScriptedStdin:
@@ -593,6 +645,10 @@ class Sandbox:
         self.stderr = sys.stderr
         self.router = None
         self.resolvectl = False
+        self.teardown_started = False
+        self.fd_budget = None        # None = unlimited; else descriptors the helper process may still open
+        self.fd_used = 0
+        self.stdout = sys.stdout
         helpers.verbose = 0
         sub = FakeSub(self)
         for mod in (linux, firewall, pf):
@@ -602,7 +658,8 @@ class Sandbox:
         self.patch(helpers, 'which', self.which)
         for mod in (nat, nft, tproxy, pf):
             self.patch(mod, 'which', self.which)
-        self.patch(pf, 'pf_get_dev', lambda: 0)
+        self.patch(pf, 'os', OsShim(self))
+        self.patch(pf, 'ioctl', lambda fd, req, buf, *a: 0)
         self.pf_objects = {'pf-freebsd': pf.FreeBsd(), 'pf-openbsd': pf.OpenBsd(), 'pf-darwin': pf.Darwin()}
         self.patch(pf, 'pf', pf.pf)
         self.saved_ctx = dict(pf._pf_context)
@@ -613,6 +670,20 @@ class Sandbox:
 
     def spawn_pending(self):
         return self.router.spawn_pending()
+
+    def take_fd(self):
+        if self.fd_budget is None:
+            return 1000
+        if self.fd_used >= self.fd_budget:
+            import errno as _errno
+            raise OSError(_errno.EMFILE, 'Too many open files')
+        self.fd_used += 1
+        return 1000 + self.fd_used
+
+    def need_fds(self, n):
+        if self.fd_budget is not None and self.fd_budget - self.fd_used < n:
+            import errno as _errno
+            raise OSError(_errno.EMFILE, 'Too many open files')
 
     def patch(self, mod, name, val):
         self.saved.append((mod, name, getattr(mod, name)))
@@ -628,11 +699,15 @@ class Sandbox:
     def debug1(self, msg):
         if msg == 'undoing changes.' and self.router is not None and self.router.undo_at is None:
             self.router.undo_at = self.router.py.count
+            self.teardown_started = True
+        self.m['helpers'].debug1(msg)      # the real one (writes when the helper is verbose)
 
     def use_pf(self, method):
         pf = self.m['pf']
         pf._pf_context.clear()
         pf._pf_context.update(dict(self.saved_ctx, Xtoken=[]))
+        if hasattr(pf, '_pf_fd'):
+            pf._pf_fd = None
         if method in self.pf_objects:
             obj = self.pf_objects[method]
             box = self
@@ -662,22 +737,34 @@ class Sandbox:
         self.m['pf']._pf_context.clear()
         self.m['pf']._pf_context.update(self.saved_ctx)
         sys.stderr = self.stderr
+        sys.stdout = self.stdout
+        self.m['helpers'].verbose = 0
         shutil.rmtree(self.dir, ignore_errors=True)
 
 
 HOSTS0 = '127.0.0.1 localhost\n10.9.8.7 printer  # not ours\n'
 
 
-def run_main(box, method, chunks, started_fails=False, hooks=None):
-    """The real firewall.main on a scripted dialogue.  Returns (exit, stdout bytes)."""
+def run_main(box, method, chunks, started_fails=False, hooks=None, io_mode=None):
+    """The real firewall.main on a scripted dialogue.  Returns (exit, stdout bytes).
+    io_mode: None, or dict(verbose=0|1|2, err='EIO'|'EPIPE'|'closed', when='always'|'teardown', stdout=bool):
+    the helper's log streams fail (real helpers.log / debug1 are used throughout)."""
     firewall = box.m['firewall']
     helpers = box.m['helpers']
     stdin = ScriptedStdin(chunks, hooks)
     stdout = ScriptedStdout(started_fails)
     box.use_pf(method)
+    box.teardown_started = False
     old = firewall.setup_daemon
     firewall.setup_daemon = lambda: (stdin, stdout)
-    sys.stderr = io.StringIO()
+    if io_mode:
+        helpers.verbose = int(io_mode.get('verbose', 0))
+        sys.stderr = FailingStream(box, io_mode['err'], io_mode.get('when', 'teardown'))
+        sys.stdout = FailingStream(box, io_mode['err'], io_mode.get('when', 'teardown')) \
+            if io_mode.get('stdout') else io.StringIO()
+    else:
+        sys.stderr = io.StringIO()
+        sys.stdout = io.StringIO()
     try:
         try:
             firewall.main(METHOD_MODULE[method], False)
@@ -703,6 +790,8 @@ def run_main(box, method, chunks, started_fails=False, hooks=None):
     finally:
         firewall.setup_daemon = old
         sys.stderr = box.stderr
+        sys.stdout = box.stdout
+        helpers.verbose = 0
         firewall.sshuttle_pid = None
     return ex, stdout.data
 
@@ -821,7 +910,7 @@ class Case:
     """(method, dialogue chunks, faults, prelude, flags) — JSON-able, replayable."""
 
     def __init__(self, method, chunks, faults=(), prelude=(), resolvectl=False, started_fails=False,
-                 pfinit=None, second=None, ports=(), pfrules=None, spawn=None):
+                 pfinit=None, second=None, ports=(), pfrules=None, spawn=None, io=None, fd_budget=None):
         self.method = method
         self.chunks = [c if isinstance(c, bytes) else c.encode('ASCII') for c in chunks]
         self.faults = sorted(faults)
@@ -834,6 +923,8 @@ class Case:
         self.pfrules = pfrules
         # {command index: 'EAGAIN' | 'ENOENT'}: the command raises OSError from the subprocess boundary
         self.spawn = dict((int(k), v) for k, v in (spawn or {}).items())
+        self.io = dict(io) if io else None       # failing log streams, see run_main
+        self.fd_budget = fd_budget               # descriptors the helper may still open (pf cases)
 
     def fault_indices(self):
         return sorted(set(self.faults) | set(self.spawn))
@@ -842,13 +933,14 @@ class Case:
         return dict(method=self.method, dialogue=[c.decode('ASCII') for c in self.chunks], faults=self.faults,
                     prelude=self.prelude, resolvectl=self.resolvectl, started_fails=self.started_fails,
                     pfinit=self.pfinit, second=self.second, ports=self.ports,
-                    spawn=dict((str(k), v) for k, v in sorted(self.spawn.items())))
+                    spawn=dict((str(k), v) for k, v in sorted(self.spawn.items())), io=self.io,
+                    fd_budget=self.fd_budget)
 
     @staticmethod
     def from_json(d):
         return Case(d['method'], d['dialogue'], d.get('faults', ()), d.get('prelude', ()), d.get('resolvectl', False),
                     d.get('started_fails', False), d.get('pfinit'), d.get('second'), d.get('ports', ()),
-                    spawn=d.get('spawn'))
+                    spawn=d.get('spawn'), io=d.get('io'), fd_budget=d.get('fd_budget'))
 
 
 def second_instance(box, method, q, action):
@@ -883,6 +975,8 @@ def execute(box, case, lean=None, faults=None):
     router = Router(py, lean)
     box.router = router
     box.resolvectl = case.resolvectl
+    box.fd_budget = case.fd_budget
+    box.fd_used = 0
     if lean is not None:
         pi = case.pfinit or {}
         lean.ask('pfinit %d %d %d' % (bool(pi.get('en')), bool(pi.get('skip')), bool(pi.get('ld', True))))
@@ -937,7 +1031,10 @@ def execute(box, case, lean=None, faults=None):
             fired.append(1)
             during_actions()
         hooks[nread] = hook
-    o.exit, o.stdout = run_main(box, case.method, case.chunks, case.started_fails, hooks)
+    import copy as _copy
+    o.pf0 = _copy.deepcopy(py.pf)
+    o.exit, o.stdout = run_main(box, case.method, case.chunks, case.started_fails, hooks, case.io)
+    box.fd_budget = None
     o.final = py.show()
     o.final_pretty = py.pretty()
     o.foreign1 = py.foreign_view(case.ports)
@@ -1038,6 +1135,8 @@ def check_oracle(ctx, box, case, o, full_ncmd=None):
         if o.final != o.expected_final:
             if m.startswith('pf'):
                 key = 'C04:pf:main-ruleset-or-module-not-restored'
+            elif case.io:
+                key = 'C04:%s:log-stream-fails:not-undone' % m
             elif m == 'tproxy' and setup_fault and not case.spawn:
                 key = 'C04:tproxy:setup-fault:teardown-aborts'
             elif setup_fault:
@@ -1172,9 +1271,10 @@ def cuts_of(lines):
     return out
 
 
-def mk_case(plan, chunks, faults=(), prelude=(), started_fails=False, second=None, pfinit=None, spawn=None):
+def mk_case(plan, chunks, faults=(), prelude=(), started_fails=False, second=None, pfinit=None, spawn=None,
+            io=None):
     c = Case(plan.method, chunks, faults, prelude, plan.resolvectl, started_fails, pfinit, second,
-             ports=sorted(set([plan.p6, plan.p4])), spawn=spawn)
+             ports=sorted(set([plan.p6, plan.p4])), spawn=spawn, io=io)
     c.full_chunks = [l.encode('ASCII') for l in plan.lines() if l.strip() not in ('FROBNICATE', 'HOST nocomma', '')]
     fam_has_subnets = {'v6': any(r[0] == 10 for r in plan.routes), 'v4': any(r[0] == 2 for r in plan.routes)}
     c.fam_has_subnets = fam_has_subnets
@@ -1215,7 +1315,11 @@ def report(ctx, case, key, expected, observed, note, o):
                   kind='faults' if case.fault_indices() else 'ops')
 
 
-def run_plan(ctx, box, lean, plan, budget):
+IO_MODES_QUICK = [(1, 'EIO'), (2, 'EPIPE'), (1, 'closed'), (0, 'EIO')]
+IO_MODES_ALL = [(v, e) for v in (0, 1, 2) for e in ('EIO', 'EPIPE', 'closed')]
+
+
+def run_plan(ctx, box, lean, plan, budget, with_io=False):
     lines = plan.lines()
     full = mk_case(plan, lines)
     o0 = execute(box, full, lean)
@@ -1276,9 +1380,23 @@ def run_plan(ctx, box, lean, plan, budget):
         for k in (ks if ctx.thorough else ks[2::7]):
             do(mk_case(plan, lines, spawn={k: 'EAGAIN'}, prelude=FOREIGN_PRELUDE, second=dict(port=q, when='before')))
 
+    if with_io:
+        # the helper's log streams fail (terminal hung up: EIO; reader gone: EPIPE; closed file object) while
+        # it is verbose or not -- during the tear-down, or all along with a set-up fault to undo
+        td = list(range(o0.undo_at if o0.undo_at is not None else o0.ncmd, o0.ncmd))
+        for v, en in (IO_MODES_ALL if ctx.thorough else IO_MODES_QUICK):
+            do(mk_case(plan, lines, io=dict(verbose=v, err=en, when='teardown', stdout=False)))
+            do(mk_case(plan, lines, io=dict(verbose=v, err=en, when='always', stdout=True)))
+        for k in (ks if ctx.thorough else ks[1::4]):
+            do(mk_case(plan, lines, faults=[k], io=dict(verbose=1, err='EIO', when='always', stdout=False)))
+        for k in (td if ctx.thorough else td[::3]):
+            do(mk_case(plan, lines, faults=[k], io=dict(verbose=2, err='EIO', when='teardown', stdout=True)))
+
     for case, o in cases:
         ctx.count()
-        ctx.mark((case.method, case.chunks, case.faults, sorted(case.spawn.items()), bool(case.prelude), case.second,
+        if case.io:
+            ctx.hist('%s:log-stream-%s-v%d' % (plan.method, case.io['err'], case.io['verbose']))
+        ctx.mark((case.method, case.chunks, case.faults, sorted(case.spawn.items()), sorted((case.io or {}).items()), bool(case.prelude), case.second,
                   case.started_fails), o.ncmd > 0)
         bad, phase = check_oracle(ctx, box, case, o)
         ctx.hist('%s:%s-%s' % (plan.method, 'spawn-error' if case.spawn else 'fault', phase))
@@ -1520,6 +1638,65 @@ def run_signals(ctx):
             ctx.violation(key, case=case, expected=exp, observed=obs, note=note, kind='ops')
 
 
+# ------------------------------------------------------------------ pf (model unvalidated; kept modest)
+
+PF_DIALOGUE = ['ROUTES\n', '2,24,0,1.2.3.0,0,0\n', '2,32,1,1.2.3.66,8080,8080\n', '10,64,0,2404:6800:4004:80c::,0,0\n',
+               'NSLIST\n', '2,1.2.3.33\n', 'PORTS 12300,12301,12302,12303\n', 'GO 0 - - 0x01 12345\n']
+
+
+def pf_oracle(case, o):
+    """pf must be back in its pre-session state.  Returns [(key, expected, observed, note)]."""
+    bad = []
+    p0, p1 = o.pf0, o.py.pf
+    if o.final.split(' pf{')[0] != o.s0.split(' pf{')[0]:
+        bad.append(('C04:pf:netfilter-touched', o.s0.split(' pf{')[0][:300], o.final.split(' pf{')[0][:300],
+                    'a pf session changed iptables/nft state'))
+    core0 = dict((k, p0[k]) for k in ('en', 'tok', 'ld', 'skip', 'anch'))
+    core1 = dict((k, p1[k]) for k in ('en', 'tok', 'ld', 'skip', 'anch'))
+    if core1 != core0:
+        key = 'C04:pf:fd-exhaustion:not-undone' if case.fd_budget is not None else 'C04:pf:session-not-identity'
+        bad.append((key, 'pf as before the session: %r' % (core0,), 'pf after the helper ended: %r' % (core1,),
+                    'anchor contents / enabled state / tokens / module state differ after the session; '
+                    'exit=%s, descriptors taken from the budget: %s' % (o.exit, o.fd_used)))
+    if p1['main'] != p0['main']:
+        extra = p1['main'][len(p0['main']):]
+        refs_only = p1['main'][:len(p0['main'])] == p0['main'] and all(
+            re.match(r'^(rdr-)?anchor "sshuttle6?-\d+" all$', l) for l in extra)
+        key = 'C04:pf:anchor-references-stay' if refs_only else 'C04:pf:main-ruleset-changed'
+        bad.append((key, 'main ruleset as before: %r' % (p0['main'],), 'main ruleset after: %r' % (p1['main'],),
+                    'add_anchors() appends anchor references to the main ruleset and nothing removes them '
+                    '(pf model unvalidated)'))
+    return bad
+
+
+def pf_cases(ctx):
+    flavours = ['pf-openbsd'] + (['pf-darwin'] if ctx.thorough else [])
+    for m in flavours:
+        # an ordinary session; then a long one: many redirected connections, each answered through /dev/pf,
+        # with a budget of descriptors the helper process may still open (RLIMIT_NOFILE at the OS boundary)
+        yield Case(m, PF_DIALOGUE, ports=[12300, 12301])
+        n, budget = (1100, 1000) if ctx.thorough else (60, 40)
+        q = ['QUERY_PF_NAT 2,6,10.0.0.%d,%d,127.0.0.1,12301\n' % (i % 250 + 1, 40000 + i) for i in range(n)]
+        yield Case(m, PF_DIALOGUE + q, ports=[12300, 12301], fd_budget=budget)
+
+
+def run_pf(ctx, box, lean):
+    for case in pf_cases(ctx):
+        o = execute(box, case, lean)
+        o.fd_used = box.fd_used
+        ctx.count()
+        ctx.mark((case.method, len(case.chunks), case.fd_budget), o.ncmd > 0)
+        ctx.hist('%s:%s' % (case.method, 'fd-budget' if case.fd_budget is not None else 'plain'))
+        for key, exp, obs, note in pf_oracle(case, o):
+            cj = case.to_json()
+            if len(cj['dialogue']) > 20:
+                # keep the replay file small: the query lines are regenerated from their number
+                nq = len(cj['dialogue']) - len(PF_DIALOGUE)
+                cj['dialogue'] = cj['dialogue'][:len(PF_DIALOGUE)]
+                cj['pf_queries'] = nq
+            ctx.violation(key, case=cj, expected=exp, observed=obs, note=note, kind='ops')
+
+
 METHODS_QUICK = ['nat', 'tproxy', 'nft']
 
 
@@ -1594,7 +1771,7 @@ def run(ctx):
         for method in METHODS_QUICK:
             plans = gen_plans(ctx, method)
             for i, plan in enumerate(plans):
-                cases = run_plan(ctx, box, lean, plan, None if (ctx.thorough or i < 3) else 10)
+                cases = run_plan(ctx, box, lean, plan, None if (ctx.thorough or i < 3) else 10, with_io=(i < 2))
                 if ctx.thorough and i < 4 and not plan.user and not plan.group:
                     good = [(c, o) for c, o in cases if o.log and not c.prelude and not c.second]
                     netns_samples += good[:1] + ctx.rng.sample(good, min(6, len(good)))
@@ -1603,6 +1780,7 @@ def run(ctx):
                     ctx.sample(dict(method=method, dialogue=[x.decode() for x in c.chunks], commands=o.ncmd,
                                     finally_at=o.undo_at, exit=o.exit,
                                     real_code_commands=[' '.join(a) + (' :ok' if ok else ' :fail') for a, ok in o.log][:40]))
+        run_pf(ctx, box, lean)
         if ctx.thorough and not os.environ.get('VERIF_NO_NETNS'):
             validate_env_in_netns(ctx, netns_samples)
     except Mismatch as e:
@@ -1661,9 +1839,21 @@ def replay(ctx, rep):
     if rep['case'].get('kind') == 'signal':
         r = run_signal_case(rep['case'])
         return bool(r['problems']), r['info'] + ''.join('; %s: %s' % (p[0], p[2]) for p in r['problems'])
+    if rep['case'].get('pf_queries'):
+        nq = rep['case']['pf_queries']
+        rep['case']['dialogue'] = list(rep['case']['dialogue']) + [
+            'QUERY_PF_NAT 2,6,10.0.0.%d,%d,127.0.0.1,12301\n' % (i % 250 + 1, 40000 + i) for i in range(nq)]
     case = Case.from_json(rep['case'])
     box = Sandbox()
     try:
+        if case.method.startswith('pf'):
+            o = execute(box, case, None)
+            o.fd_used = box.fd_used
+            bad = pf_oracle(case, o)
+            known = set(k['key'] for k in common.load_known() if k.get('status') == 'known')
+            bad = [b for b in bad if b[0] not in known] if rep.get('key') not in known else bad
+            return bool(bad), 'exit=%s commands=%d fds=%d pf after: %r%s' % (
+                o.exit, o.ncmd, o.fd_used, o.py.pf, ''.join('; %s' % b[0] for b in bad))
         plan_lines = [c for c in case.chunks]
         case.full_chunks = [c for c in plan_lines if c.endswith(b'\n') and
                             c.strip() not in (b'FROBNICATE', b'HOST nocomma', b'')]
